@@ -1967,13 +1967,17 @@ class DynamicSeedingInstrumentation(transformer.DynamicSeedingInstrumentationAda
         instr: Instr,
         instr_index: int,
     ) -> None:
+        # The receiver and the argument are only handed over to the constant provider,
+        # which decides whether they can be concatenated: adding them up right here
+        # would raise into the module under test for a tuple of prefixes (or run the
+        # operators of arbitrary objects that merely have a method of this name).
         node.basic_block[before(instr_index + 2)] = (
             self.instructions_generator.generate_instructions(
-                InstrumentationSetupAction.ADD_FIRST_TWO_REVERSED,
+                InstrumentationSetupAction.COPY_FIRST_TWO,
                 InstrumentationMethodCall(
                     self._dynamic_constant_provider,
-                    DynamicConstantProvider.add_value.__name__,
-                    (InstrumentationStackValue.FIRST,),
+                    DynamicConstantProvider.add_value_for_startswith.__name__,
+                    (InstrumentationStackValue.SECOND, InstrumentationStackValue.FIRST),
                 ),
                 instr.lineno,
             )
@@ -1990,13 +1994,14 @@ class DynamicSeedingInstrumentation(transformer.DynamicSeedingInstrumentationAda
         instr: Instr,
         instr_index: int,
     ) -> None:
+        # See visit_startswith_function.
         node.basic_block[before(instr_index + 2)] = (
             self.instructions_generator.generate_instructions(
-                InstrumentationSetupAction.ADD_FIRST_TWO,
+                InstrumentationSetupAction.COPY_FIRST_TWO,
                 InstrumentationMethodCall(
                     self._dynamic_constant_provider,
-                    DynamicConstantProvider.add_value.__name__,
-                    (InstrumentationStackValue.FIRST,),
+                    DynamicConstantProvider.add_value_for_endswith.__name__,
+                    (InstrumentationStackValue.SECOND, InstrumentationStackValue.FIRST),
                 ),
                 instr.lineno,
             )
